@@ -339,6 +339,7 @@ func (x *Exec) writeVCs(dir string, pkg *types.Package) ([]string, error) {
 	axioms := append(x.dbAxioms(pkg), x.globalAxioms()...)
 	var sb strings.Builder
 	sb.WriteString(prelude)
+	sb.WriteString(wrapMarkBegin + wrapDefs("A") + wrapMarkEnd)
 	for _, l := range x.d.order {
 		sb.WriteString(l)
 		sb.WriteByte('\n')
